@@ -41,9 +41,24 @@ def lattice_graph(k, w, nr):
     return k * w + k + nr + 1, k * w + k + 1, edges
 
 
+def path_union(m):
+    """disjoint union of the paths u0 - v0 - u1 - v1 - ... - uk - vk, k = 1..m, in which the end vertex u0 carries the largest index of
+    its path: the first phase of Hopcroft-Karp matches u_{i+1} - v_i everywhere and every later phase can only repair the shortest
+    path that is left, so the number of phases grows with m (a perfect matching exists)"""
+    edges = []; off = 0
+    for k in range(1, m + 1):
+        for i in range(1, k + 1):
+            edges.append((off + i - 1, off + i - 1)); edges.append((off + i - 1, off + i))
+        edges.append((off + k, off))
+        off += k + 1
+    return off, off, edges
+
+
 def cases(tier, seed):
     for (k, w, nr) in ((3, 2, 1), (8, 3, 2), (14, 3, 3), (16, 3, 3), (11, 4, 2)):
         yield dict(kind='lattice', k=k, w=w, nr=nr, seed=seed)
+    for m in (1, 2, 3, 4, 6, 9) + ((12, 15) if tier != 'quick' else ()):
+        yield dict(kind='paths', m=m, seed=seed)
     _r = np.random.default_rng(seed + 77)
     for _k in range(30 if tier == 'quick' else 200):
         yield dict(kind='reuse', count=25, seed=int(_r.integers(1 << 31)))
@@ -287,6 +302,13 @@ def run_case(c):
             check_graph(nu, nv, edges, opt, fail, f'lattice k={c["k"]} w={c["w"]} roots={c["nr"]} ({nu}x{nv})')
         finally:
             signal.alarm(0)
+        return dict(failures=fails, nontrivial=True, key=json.dumps(c, sort_keys=True))
+    if c['kind'] == 'paths':
+        nu, nv, edges = path_union(c['m'])
+        check_graph(nu, nv, edges, nu, fail, f'union of paths of lengths 3..{2 * c["m"] + 1} ({nu}x{nv})')
+        # the same graph with NumPy integers as vertex indices (edge lists taken from np.argwhere / np.nonzero are common)
+        e2 = [(np.int64(u), np.int64(v)) for (u, v) in edges]
+        check_graph(nu, nv, e2, nu, fail, f'union of paths of lengths 3..{2 * c["m"] + 1} ({nu}x{nv}), NumPy integer indices')
         return dict(failures=fails, nontrivial=True, key=json.dumps(c, sort_keys=True))
     if c['kind'] == 'reuse':
         check_reuse(rng, c['count'], fail)
